@@ -159,3 +159,46 @@ pub fn run_campaign(seed: u64, count: u64, prof: &Profile, out: &mut dyn Write) 
     }
     stats
 }
+
+/// Re-executes the histories of a replay/trace file (its `H`, `L`, `O` lines) against the real library.
+pub fn run_replay(text: &str, out: &mut dyn Write) -> CampaignStats {
+    let fx = load_fixtures();
+    let mut stats = CampaignStats::default();
+    let mut id = String::from("replay");
+    let mut base: Vec<u8> = vec![];
+    let mut ops: Vec<Op> = vec![];
+    let mut sigs: Vec<String> = vec![];
+    let mut key: Option<String> = None;
+    let flush = |id: &str, base: &Vec<u8>, ops: &Vec<Op>, sigs: &Vec<String>, key: &Option<String>, out: &mut dyn Write, stats: &mut CampaignStats| {
+        if ops.is_empty() { return; }
+        let ctx = Ctx {
+            base: base.clone(), other_base: vec![], numbers: vec![], targets: vec![], patches: vec![], wrong_base_patches: vec![],
+            key_mode: KeyMode::None, key: key.clone(), sigs: vec![], app_id: String::new(), yaml_channel: None, versions: vec![],
+            channels: vec![], auto: None, all_sigs: sigs.clone(), all_contents: vec![],
+        };
+        let mut src = |_r: &Runner, k: usize| -> Option<Op> { ops.get(k).cloned() };
+        run_history(id, &ctx, &mut src, out, stats);
+    };
+    let _ = &fx;
+    for line in text.lines() {
+        let line = line.trim();
+        if let Some(rest) = line.strip_prefix("H ") {
+            flush(&id, &base, &ops, &sigs, &key, out, &mut stats);
+            ops.clear(); sigs.clear(); key = None; base.clear();
+            id = rest.split_whitespace().next().unwrap_or("replay").to_string();
+        } else if let Some(rest) = line.strip_prefix("L ") {
+            let p: Vec<&str> = rest.split_whitespace().collect();
+            if p.len() == 2 { base = dec_hex(p[1]).unwrap_or_default(); }
+        } else if let Some(rest) = line.strip_prefix("O ") {
+            match parse_op(rest, &|s| zstd_compress(s)) {
+                Some(op) => {
+                    if let Op::Init { yaml: Ok(y), .. } = &op { if key.is_none() { key = y.key.clone(); } }
+                    ops.push(op);
+                }
+                None => eprintln!("replay: unparsable op line: {}", rest),
+            }
+        }
+    }
+    flush(&id, &base, &ops, &sigs, &key, out, &mut stats);
+    stats
+}
